@@ -111,7 +111,7 @@ def PROOFS():
             ("vf.contracts.variable_c", [f for f in variable_c.FUNCTIONS if f.endswith("eval_new_data_categoric")] +
              ["formulae.terms.variable.Variable.eval_categoric", "formulae.terms.call.Call.eval_categoric"]),
             # property lemmas: a transform / a categorical factor fitted on a frame maps any selection of its rows to the training rows
-            ("vf.contracts.lemmas_c", ["vf.proplemmas.c06.center_rows", "vf.proplemmas.c06.scale_rows", "vf.proplemmas.c06.categoric_rows"])]
+            ("vf.contracts.lemmas_c", ["vf.proplemmas.c06.center_rows", "vf.proplemmas.c06.scale_rows", "vf.proplemmas.c06.categoric_rows", "vf.proplemmas.c06.bspline_rows"])]
 
 
 def run(report, findings):
